@@ -62,7 +62,8 @@ RULE = ('cases: synthesized dynamic images (both classes/byte orders; common, MI
         'indices (segment views certified by seg_consistent_b and compared against the table DT_STRTAB designates); hash tables '
         'are real ones (standard hash functions, bloom filter, buckets, chains), a third of the symbols share their name with '
         'another one, get_symbol_by_name is asked first thing on a fresh object and again after a miss; a HISTORY per case and view on '
-        'ONE object: a tag walk (with or without type filter) is started, k tags taken, then num_tags / get_tag(n) / num_symbols / '
+        'ONE object: a tag walk (no type filter, the name of an entry by position, or a name ANY target gives to a code of the array / '
+        'a name of an absent code) is started, k tags taken, then num_tags / get_tag(n) / num_symbols / '
         'iter_symbols / get_table_offset / get_relocation_tables / a second walk are put to the same object and the first walk '
         'resumed to its end - all answers must be the stateless ones; the walks / num_tags / get_tag part of the history is also run one '
         'tag at a time against the stateful Coq model (hrun) and its reference (rrun); every observation of the '
@@ -262,6 +263,9 @@ def _gen_image(ctx, rng, malformed):
         return [rng.randrange(-top, top), rng.getrandbits(8 * w)]
     for _ in range(rng.choice([0, 1, 2, 4, 7])):
         ents.append(other())
+    if rng.random() < 0.5:     # codes of the reused processor / OS ranges: their NAME depends on the target
+        ents.append([rng.choice([0x70000001, 0x70000003, 0x70000005, 0x70000006, 0x6000000d, 0x6000000e, 0x60000010,
+                                 0x60000011, 32, 0x7fffffff]), rng.getrandbits(16)])
     if rng.random() < 0.1:     # a second, different, string table pointer: the first one counts
         ents.append([DT['STRTAB'], rng.getrandbits(16) | 1])
     rng.shuffle(ents)
@@ -315,10 +319,42 @@ def _gen_image(ctx, rng, malformed):
             ['shpad', rng.choice([0, 0, 16])], ['filesz_exact', rng.random() < 0.5], ['mut', mut]]
 
 
-def _gen_history(rng):
+_TAG_NAMES = None
+
+
+def _tag_names():
+    """every d_tag name any target's table of the library knows, by code (live tables): the processor- and
+    OS-specific ranges are reused, one code carries different names on different targets"""
+    global _TAG_NAMES
+    if _TAG_NAMES is None:
+        from elftools.elf import enums as E
+        by_code = {}
+        dicts = [E.ENUM_D_TAG, getattr(E, 'ENUM_D_TAG_COMMON', {}), getattr(E, 'ENUM_D_TAG_SOLARIS', {})]
+        dicts += list(getattr(E, 'ENUMMAP_EXTRA_D_TAG_MACHINE', {}).values())
+        for d in dicts:
+            for k, v in d.items():
+                if k != '_default_' and isinstance(v, int):
+                    by_code.setdefault(v, set()).add(k)
+        _TAG_NAMES = {c: sorted(n) for c, n in by_code.items()}
+    return _TAG_NAMES
+
+
+def _gen_history(rng, codes=None):
     """a history on ONE Dynamic object: start a tag walk (type filter chosen by position in the tag list, by
-    name, or none), take k tags, put other questions to the same object, then resume the walk to its end"""
+    name, or none), take k tags, put other questions to the same object, then resume the walk to its end.
+    By-name filters include every name ANY target gives to a code present in the array (the target's own name,
+    another target's name for the same code, an alias) and names of codes that are absent: selection by name
+    must agree with the names the target's own table reports."""
+    names = _tag_names()
+    specific = sorted(n for c, ns in names.items() if c >= 0x60000000 or len(ns) > 1 for n in ns)
     def tsel():
+        r = rng.random()
+        if r < 0.3 and codes:
+            c = rng.choice(codes)
+            if c in names:
+                return ['name', rng.choice(names[c])]
+        if r < 0.4 and specific:
+            return ['name', rng.choice(specific)]
         return rng.choice([None, None, ['idx', rng.randrange(40)], ['idx', rng.randrange(40)], ['name', 'DT_NULL'],
                            ['name', 'DT_NEEDED'], ['name', 'DT_FLAGS_1']])
     ops = []
@@ -334,7 +370,7 @@ def gen(ctx):
     n = ctx.scale(260, 4000)
     for i in range(n):
         a = _gen_image(ctx, rng, malformed=(i % 8 == 7))
-        a.append(['hist', _gen_history(rng)])
+        a.append(['hist', _gen_history(rng, [e[0] for e in _d(a)['entries'] if isinstance(e[0], int)])])
         cases.append(('img', a))
     d = os.path.join(str(REPO), 'test', 'testfiles_for_unittests')
     limit = ctx.scale(60000, 600000)
